@@ -37,7 +37,7 @@ pub fn spec() -> CheckSpec {
     ],
     real_components: "deno_graph builder (both kinds), ModuleGraph::prune_types, SeenPendingCollection, valid()",
     stub_components: "all seams simulated",
-    quick_cases: 3000,
+    quick_cases: 8000,
     thorough_cases: 150000,
     run_case,
     systematic: |_| 0,
